@@ -22,6 +22,9 @@ PROFILES = {
             'tm_weights': [0, 1, 1, 2], 'p_noleave': 0.05},
     'c08': {'n_classes': [2, 3, 3], 'p_prio': 0.9, 'arr_scale': 0.6, 'p_qcap': 0.2, 'p_cct': 0.3,
             'disciplines': ['FIFO', 'FIFO', 'LIFO', 'LIFO', 'SIRO'], 'p_kinds': (0.6, 0.0, 0.25, 0.15)},
+    'c08sched': {'n_classes': [2, 3], 'p_prio': 1.0, 'force_distinct_prio': True, 'p_prio_preempt': 1.0, 'prio_preempt_opts': ['resume', 'restart', 'resample'],
+                 'p_kinds': (0.2, 0.0, 0.8, 0.0), 'sched_preempt': ['resume', 'restart', 'resample'], 'shift_servers': [0, 1, 1, 2], 'p_qcap': 0.0, 'p_qcap_sched': 0.0,
+                 'p_syscap': 0.0, 'arr_scale': 0.6, 'p_ps': 0.0, 'p_cct': 0.3, 'disciplines': ['FIFO', 'FIFO', 'LIFO']},
     'c09': {'n_nodes': [2, 3, 3, 4], 'routing_kinds': ['tm', 'nr', 'nr', 'nr', 'pb', 'fpb', 'fpb'], 'p_ccm': 0.5,
             'node_routers': ['leave', 'direct', 'prob', 'jsq', 'jsq', 'lb', 'lb', 'cycle']},
     'c10': {'p_batch': 0.6},
@@ -76,7 +79,7 @@ PLANS = {
     'C05': ([('c05', 5), ('generic', 3), ('c12', 1), ('c13', 1)], scope_all, ['C05.snapshots_with_waiting']),
     'C06': ([('c06', 7), ('generic', 3)], scope_c06, ['C06.arrivals_when_full']),
     'C07': ([('c07', 6), ('ring', 2), ('generic', 2)], scope_c07, ['C07.blocks']),
-    'C08': ([('c08', 6), ('generic', 3), ('c11', 1)], scope_all, ['C08.service_starts_with_choice', 'C08.slot_starts']),
+    'C08': ([('c08', 5), ('c08sched', 2), ('generic', 3), ('c11', 1)], scope_all, ['C08.service_starts_with_choice', 'C08.slot_starts']),
     'C09': ([('c09', 5), ('c09jsq', 3), ('generic', 3)], scope_all, ['C09.routing_decisions']),
     'C10': ([('c10', 5), ('generic', 4), ('lattice', 1)], scope_all, ['C10.services']),
     'C11': ([('c11', 9), ('generic', 1)], scope_c11, ['C11.preemptions']),
